@@ -215,6 +215,13 @@ class Gen:
                 c = {'name': name, 'kind': kind}
                 if kind == 'userstring' and rng.random() < 0.5:
                     c['constraint'] = rng.choice(['starts_a', 'nonempty'])
+                elif kind in ('userstring', 'stringlike') and \
+                        rng.random() < 0.4:
+                    # seasoned string-like class: upper case in Python,
+                    # lower case in YAML
+                    c['constraint'] = 'upper'
+                    c['savorize'] = [['enum_upper']]
+                    c['sweeten'] = [['enum_lower']]
                 self.classes.append(c)
                 self.strlikes.append(name)
 
